@@ -1,7 +1,7 @@
 (* C18 — ORM export is reproducible.
    Pinned statements only: each theorem is closed by [exact] of a lemma proved in Proofs/. *)
 From VV.EXP Require Import Imports Names ImportsP NamesP.
-From Coq Require Import Permutation.
+From Coq Require Import Permutation Sorted.
 
 (* where the code sorts after collecting, the oracle (= hash iteration order) cannot be observed *)
 Theorem C18_sorted_imports_oracle_free : forall pi pi' t, admissible pi -> admissible pi' ->
@@ -10,6 +10,20 @@ Proof. exact sorted_imports_oracle_free. Qed.
 Print Assumptions C18_sorted_imports_oracle_free.
 Check C18_sorted_imports_oracle_free : forall pi pi' t, admissible pi -> admissible pi' ->
   sqlalchemy_imports_sorted_part pi t = sqlalchemy_imports_sorted_part pi' t.
+
+(* ... and what it shows instead is THE byte-wise order of the inserted names (String.compare on the UTF-8 bytes =
+   Rust's Ord for str, upper case before lower case): K-exp compares this text, order included, with every
+   variant of the line the real exporter produced, so another sort key is a correspondence mismatch *)
+Theorem C18_sa_line_bytewise_sorted : forall pi t, admissible pi ->
+  exists l, sa_line pi t = "from sqlalchemy import " +++ join ", " l
+            /\ Permutation l (hs_of_inserts (sa_inserts t) [])
+            /\ StronglySorted (fun a b => String.compare a b <> Gt) l.
+Proof. exact sa_line_bytewise_sorted. Qed.
+Print Assumptions C18_sa_line_bytewise_sorted.
+Check C18_sa_line_bytewise_sorted : forall pi t, admissible pi ->
+  exists l, sa_line pi t = "from sqlalchemy import " +++ join ", " l
+            /\ Permutation l (hs_of_inserts (sa_inserts t) [])
+            /\ StronglySorted (fun a b => String.compare a b <> Gt) l.
 
 (* D5: the `from datetime import ...` line is an unsorted iteration *)
 Theorem C18_datetime_imports_refuted :
